@@ -365,16 +365,12 @@ func (x *executor) apply(s step) {
 	pid := uni.pids[s.Peer]
 
 	// white-box evidence only: does the written peer hold expired-but-uncollected entries in pstoremem?
-	capPre := map[*liveStore]*memDump{}
-	for _, st := range x.stores {
-		if st.cfg.Kind == skDS {
-			continue
-		}
-		d := dumpMem(st)
-		if st.cm != nil {
-			capPre[st] = d
-		} else if s.Kind != opAdvance {
-			for _, e := range d.entries {
+	if s.Kind != opAdvance {
+		for _, st := range x.stores {
+			if st.cfg.Kind != skMem {
+				continue
+			}
+			for _, e := range dumpMem(st).entries {
 				if e.peer == s.Peer && e.exp <= m.now {
 					x.st["write_on_peer_with_expired_uncollected_entries"]++
 					break
@@ -545,7 +541,7 @@ func (x *executor) apply(s step) {
 			continue
 		}
 		if st.cm != nil {
-			x.capRelation(st, s, capPre[st])
+			x.capRelation(st, s)
 		}
 	}
 	if len(x.fails) > 0 {
@@ -722,7 +718,9 @@ func (x *executor) read(st *liveStore, rd read, suffix string) {
 				}
 			case !live && !listed[i] && p.deadSince != never && p.deadSince <= guaranteed:
 				x.st["peers_dead_unlisted_after_gc"]++
-				x.sawGCRequired = true
+				if st.cm == nil { // (capped books break ties by map order: keep the non-trivial rule deterministic)
+					x.sawGCRequired = true
+				}
 			}
 		}
 	}
@@ -867,7 +865,7 @@ func (x *executor) memWhiteBox(st *liveStore) {
 //     unconnected entry is never removed by it; nothing new is inserted while the book is full.
 //
 // Afterwards the model adopts the implementation's choice.
-func (x *executor) capRelation(st *liveStore, s step, pre *memDump) {
+func (x *executor) capRelation(st *liveStore, s step) {
 	cm := st.cm
 	if s.Kind == opAdvance {
 		// already advanced; nothing may change but expiry
